@@ -587,3 +587,13 @@ pub fn prog_test_snippet(ops: &[Op], init: &RVm, env: &ProgEnv, expect: &str) ->
         expect
     )
 }
+
+/// Schedule-independent part of an outcome (what C10/C02 compare across schedules).
+pub fn sched_obs(o: &RealOut) -> (u8, u64, Option<Snap>, usize) {
+    match o {
+        RealOut::Ok { gas, snap } => (0, *gas, Some(snap.clone()), 0),
+        RealOut::Err { index, .. } => (1, 0, None, *index),
+        RealOut::Panic { .. } => (2, 0, None, 0),
+    }
+}
+
